@@ -45,8 +45,9 @@ impl<T: Send + Sync> ConIterOfVec<T> {
     }
 
     unsafe fn take_one(&self, item_idx: usize) -> T {
-        let vec = &mut *self.vec.get();
-        let src_ptr = vec.as_mut_ptr().add(item_idx);
+        // shared reborrow: concurrent callers must not create aliasing `&mut` references to the vector
+        let vec = &*self.vec.get();
+        let src_ptr = vec.as_ptr().add(item_idx);
 
         let mut value = MaybeUninit::<T>::uninit();
         let dst_ptr = value.as_mut_ptr();
@@ -60,11 +61,12 @@ impl<T: Send + Sync> ConIterOfVec<T> {
         begin_idx: usize,
         len: usize,
     ) -> impl ExactSizeIterator<Item = T> {
-        let vec = &mut *self.vec.get();
+        // shared reborrow: concurrent callers must not create aliasing `&mut` references to the vector
+        let vec = &*self.vec.get();
         let end_idx = begin_idx.saturating_add(len).min(vec.len());
         let len = end_idx - begin_idx;
 
-        let ptr = vec.as_mut_ptr().add(begin_idx);
+        let ptr = (vec.as_ptr() as *mut T).add(begin_idx);
         let vec = Vec::from_raw_parts(ptr, len, 0);
         vec.into_iter()
     }
